@@ -221,3 +221,86 @@ def run_logql_metric(ck, n_quick=1200, n_thorough=30000):
     ck.extra["logql_metric_skipped"] = skipped
     ck.metric_mismatch_cases = mism
     return cases
+
+
+# ---------------------------------------------------------------------- line_format templates alone (model/LogqlTemplate.v)
+def run_tpl(ck, n_quick=1500, n_thorough=40000, corpus=None):
+    """The template text of `| line_format`, alone: the real LineFormatPlanner over SQLMainInitPlanner (harness logqlsql --mode tpl)
+    against LogqlCases.tpl_probe. Three-valued: a text the model parses must give the same statement byte for byte, a text the model
+    says Parse refuses must be refused, a text outside the transcribed fragment is no claim (counted). A mismatch with a template
+    the model claims is a concrete input: the violation carries it (replay: logqlsql --mode tpl --cases <file>)."""
+    ok, out = ck.coq_make(["model/LogqlCases.vo"])
+    if not ok:
+        ck.obligation("LogQL planner model builds", False, out[-1500:])
+        return []
+    if not ck.go_build("logqlsql"):
+        ck.obligation("harness logqlsql builds against the repository", False, ck.build_out[-1500:])
+        return []
+    outp = os.path.join(ck.work, "logqlsql_tpl.jsonl")
+    rc, out = ck.go_run("logqlsql", ["--mode", "tpl", "--seed", ck.seed, "--n", ck.n(n_quick, n_thorough), "--out", outp], timeout=1800)
+    if rc != 0:
+        ck.obligation("harness logqlsql --mode tpl ran", False, out[-1500:])
+        return []
+    cases = [json.loads(l) for l in open(outp)]
+    if corpus and os.path.exists(corpus):
+        outc = os.path.join(ck.work, "logqlsql_tpl_corpus.jsonl")
+        rc, out = ck.go_run("logqlsql", ["--mode", "tpl", "--cases", corpus, "--out", outc])
+        if rc == 0:
+            wit = [json.loads(l) for l in open(outc)]
+            for i, c in enumerate(wit):
+                c["id"] = 10 ** 6 + i
+                c["class"] = "corpus"
+            cases = wit + cases
+    verdict, sql = {}, {}
+    for k in range(0, len(cases), 8000):
+        part = cases[k:k + 8000]
+        chunks = []
+        for j in range(0, len(part), 40):
+            chunks.append("let chunk%d = [\n " % (j // 40) + ";\n ".join("(%d, %s, %s)" % (c["id"], c["tpl_ml"], c["ctx_ml"]) for c in part[j:j + 40]) + "]\n")
+        txt = "".join(chunks) + "let cases = List.concat [" + "; ".join("chunk%d" % i for i in range(len(chunks))) + "]\n"
+        rc, out = ck.ocaml_eval("logqltpl", "ExtractLogql.v", "logqlplan", txt, "logqltpl_driver.ml")
+        if rc != 0:
+            ck.obligation("line_format template cases evaluated by the extracted model", False, out[-2000:])
+            return cases
+        for ln in out.splitlines():
+            parts = ln.split()
+            if len(parts) == 3:
+                verdict[int(parts[0])] = parts[1]
+                sql[int(parts[0])] = None if parts[2] == "-" else bytes.fromhex(parts[2])
+    hist, bad = {}, []
+    for c in cases:
+        v = verdict.get(c["id"])
+        impl_ok = not c.get("err")
+        key = "%s:%s:%s" % (c["class"], {"p": "parsed", "e": "refused", "u": "outside"}.get(v, "?"), "ok" if impl_ok else "error")
+        hist[key] = hist.get(key, 0) + 1
+        c["verdict"] = v
+        if v == "p":
+            want = c.get("sql", "").encode("utf8", "surrogateescape") if impl_ok else None
+            if sql.get(c["id"]) != want:
+                c["diff"] = first_diff(sql.get(c["id"]), want)
+                bad.append(c)
+        elif v == "e":
+            if impl_ok or sql.get(c["id"]) is not None:
+                c["diff"] = "the model says Parse refuses this template, the planner printed %r" % (c.get("sql", "")[:160],)
+                bad.append(c)
+        elif v == "u":
+            if sql.get(c["id"]) is not None:
+                c["diff"] = "the model plans a template it calls outside its fragment"
+                bad.append(c)
+        else:
+            c["diff"] = "no verdict from the model"
+            bad.append(c)
+    claimed = sum(n for k, n in hist.items() if ":outside:" not in k)
+    ck.obligation("line_format templates: tpl_parse / tpl_sql (model/LogqlTemplate.v) = text/template Parse + LineFormatPlanner.visitNodes, statement byte for byte, "
+                  "on %d of %d generated templates (the others lie outside the transcribed fragment: no claim)" % (claimed, len(cases)),
+                  not bad and claimed > 0, "; ".join("%r => %s" % (c["tpl"], c["diff"]) for c in bad[:3]))
+    ck.extra["line_format_templates"] = {"class:model:planner": hist, "claimed": claimed, "generated": len(cases)}
+    if bad:
+        bad.sort(key=lambda c: len(c["tpl"]))
+        c = bad[0]
+        ck.violation({"property": ck.pid, "kind": "the statement LineFormatPlanner prints for this line_format template differs from the transcription "
+                      "(model/LogqlTemplate.v tpl_parse / tpl_sql, model/LogqlPlan.v PLineFormatP)", "template": c["tpl"], "ctx": c["ctx"],
+                      "planner": c.get("sql") or ("error: " + c.get("err_text", "")), "diff": c["diff"],
+                      "replay": "write {\"id\":0,\"tpl\":<template>,\"ctx\":<ctx>} as one JSON line and run .build/bin/<tag>/logqlsql --mode tpl --cases <file> --out /dev/stdout"})
+    ck.tpl_cases = cases
+    return cases
